@@ -397,14 +397,9 @@ func runC13(r *Runner, tier string, rng *Rng) {
 			}
 			paths = append(paths, rp)
 		}
-		stripSymOK := false
-		for _, q := range r.Quirks {
-			if q == "lstrip_skips_symlinks" {
-				stripSymOK = true // recorded finding reproduced: the model mirrors it, so the combination can be explored
-			}
-		}
-		if rng.Chance(30) && (!symlinks || (stripSymOK && !follow)) {
-			// strip prefixes (never combined with symlinks: recorded keys of symlinks ignore the prefix, see KNOWN_FINDINGS)
+		if rng.Chance(30) {
+			// strip prefixes - since the repair of finding F19 also on trees with file and (followed)
+			// directory symlinks: the prefix is stripped from the path of the LINK, names are unique
 			lstrip = []any{rng.Pick([]string{"r1/", "r1", "r2/", "deep/", "r1/sub/", "zzz"})}
 			if rng.Chance(20) {
 				lstrip = append(lstrip, "r2/")
